@@ -256,10 +256,10 @@ def advValueToks (q : List Tok) : List Tok :=
 def advNone (q : List Tok) : Bool :=
   q.any (fun t => t.kind == .percent) || ((advValueToks q).getLast?.map (·.kind)) != some .ws
 
-theorem withRecover_none {β : Type} {f : P α (Option β)} {s : BP α}
+theorem withRecover_none_ext {β : Type} {f : P α (Option β)} {s : BP α}
     (h : ∃ c, f s = (none, { s with cur := c })) : withRecover f s = (none, s) := by
   obtain ⟨c, hc⟩ := h
-  rw [withRecover_run, hc]
+  rw [withRecover_run_ext, hc]
   rfl
 
 theorem parseAdvancedQuantity_declines (s : BP α) (hc : s.cur = 0) (h : advNone s.toks = true) :
@@ -342,7 +342,7 @@ theorem parseQuantityInner_ind (s : BP α) (hc : s.cur = 0) (h : quantCore s.tok
     cases e.has Gen.EXT_ADVANCED_UNITS
     · rfl
     · simp only [if_true]
-      exact withRecover_none (parseAdvancedQuantity_declines (s.withExt e) hc h.2)
+      exact withRecover_none_ext (parseAdvancedQuantity_declines (s.withExt e) hc h.2)
   · exact parseRegularQuantity_ind s h.1
 
 theorem parseQuantity_ind (q : List Tok) (h : quantCore q = true) (s : BP α) :
